@@ -44,3 +44,21 @@ package mathext
 //@   requires margin >= 0
 //@   requires fits(mathint(target) - mathint(margin), v) && fits(mathint(target) + mathint(margin), v)
 //@   ensures r <==> (mathint(target) - mathint(margin) <= mathint(v) && mathint(v) <= mathint(target) + mathint(margin))
+//@
+//@ // PDEP/PEXT dispatch through pdepImpl/pextImpl, which package initialisation
+//@ // sets to the portable loops (proved equal to pdepS/pextS above) or to the BMI2
+//@ // assembly (outside any verifier here; axiom: PDEPQ/PEXTQ equal pdepS/pextS).
+//@ func PDEP(x uint64, mask uint64) (r uint64)
+//@   property C17
+//@   trusted dispatch through a function variable; generic arm proved, BMI2 arm is a stated axiom
+//@   ensures r == pdepS(x, mask, 1)
+//@
+//@ func PEXT(x uint64, mask uint64) (r uint64)
+//@   property C17
+//@   trusted dispatch through a function variable; generic arm proved, BMI2 arm is a stated axiom
+//@   ensures r == pextS(x, mask, 1)
+//@
+//@ struct writers_global pdepImpl = {init}
+//@   property C17
+//@ struct writers_global pextImpl = {init}
+//@   property C17
